@@ -4,6 +4,7 @@ From Frugal Require Import Bytes Wire Skip Values Desc Spec Encode Decode Checks
 From Frugal.gen Require Import Params.
 From Frugal.proofs Require Import GenOk BytesWire EncodeSpec SizeExact SkipPut DecodeSafe DecodeRefines RoundTrip Corollaries StateProofs BitsetProofs AllocProofs DescMapProofs ConcProofs BufferContract.
 From Frugal.props Require Import Examples.
+From Frugal.proofs Require Import TwoHop.
 Import ListNotations.
 
 (* after decoding a well-formed message, the holder is the concatenation, in message order, of
@@ -41,3 +42,54 @@ Example C11_instance :
   = DOk (VT [VS 5; VB true []; VS 7]
             (put_fields [(40, WStr [1; 2]); (2, WI32 9); (41, WList false 8 [WI32 3])]), 40%N) [].
 Proof. vm_compute. reflexivity. Qed.
+
+(* ---- "an intermediary with an older schema loses nothing": the second hop (proofs/TwoHop.v) ----
+   sidW is the writer's (newer) struct type, sidR the intermediary's: it has the holder and its
+   fields are a subset of the writer's (hop_checks: holder, sub-schema, and the two types'
+   default initialisers agree on the shared fields).  The writer's value v is typed, complete,
+   has enums within int32 and writes nil struct pointers only to types whose default value
+   survives a round trip (hop_value_ok; each of these conditions is necessary, see the
+   counterexamples below).  If the intermediary decodes the writer's message to r, then decoding
+   the intermediary's re-encoding of r with the writer's schema gives exactly what decoding the
+   original message gives: norm_top v.  EncodedSize of r is exact. *)
+Theorem C11_two_hops : forall n env pool pool' sidW sidR v r k,
+  params_ok = true -> tables_ok = true -> env_ok env = true -> init_ok env = true ->
+  hop_checks n env sidW sidR = true -> hop_value_ok env sidW v = true ->
+  (2 * vdepth v + 2 <= S (N.to_nat maxDepthLimit))%nat -> (2 * vdepth r + 2 <= S (N.to_nat maxDepthLimit))%nat ->
+  decode_object env pool sidR (append_struct env sidW v) (fresh env sidR) = DOk (r, k) [] ->
+  decode_object env pool' sidW (append_struct env sidR r) (fresh env sidW)
+  = DOk (norm_top env sidW v, len (append_struct env sidR r)) []
+  /\ encoded_size env sidR r = len (append_struct env sidR r).
+Proof. exact two_hop_impl_checked. Qed.
+Print Assumptions C11_two_hops.
+
+(* the same on the reference level: what the intermediary writes is the well-formed message of its
+   known fields followed by the unknown ones, and the writer-schema reader cannot tell the difference *)
+Theorem C11_two_hops_reference : forall n env sidW sidR v r,
+  params_ok = true -> env_ok env = true -> init_ok env = true ->
+  hop_checks n env sidW sidR = true -> hop_value_ok env sidW v = true ->
+  absorb_top env sidR (denote env (TStruct sidW) v) (fresh env sidR) = AOk r ->
+  exists sdR, lookup_sd env sidR = Some sdR
+    /\ put (denote env (TStruct sidR) r) = put (hop_message env sdR (denote env (TStruct sidW) v) r)
+    /\ absorb_top env sidW (hop_message env sdR (denote env (TStruct sidW) v) r) (fresh env sidW)
+       = absorb_top env sidW (denote env (TStruct sidW) v) (fresh env sidW).
+Proof. exact two_hop_checked. Qed.
+
+(* non-vacuity: a 9-field writer (required i64, optional string, list, optional map, nil pointer,
+   optional pointer, optional i16 at its default, by-value struct, optional list with a default), a
+   reader that knows ids 1, 5, 7, 9 and has the holder; both have initialisers *)
+Example C11_two_hops_instance :
+  hop_checks 4 env_hop 1 2 = true /\ hop_value_ok env_hop 1 v_hop = true
+  /\ decode_object env_hop [] 2 (append_struct env_hop 1 v_hop) (fresh env_hop 2) = DOk (r_hop, 85) []
+  /\ decode_object env_hop [] 1 (append_struct env_hop 2 r_hop) (fresh env_hop 1)
+     = DOk (norm_top env_hop 1 v_hop, 105) [].
+Proof. repeat split; vm_compute; reflexivity. Qed.
+
+(* without the holder the unknown field is lost; with initialisers that disagree on a shared field
+   the value changes silently (the hypotheses are not decoration) *)
+Example C11_needs_holder :
+  let v := VT [VS 1; VS 2] [] in
+  hop_checks 4 ce_holder_env 0 1 = false
+  /\ hop2 ce_holder_env 0 1 v = Some (DOk (VT [VS 0; VS 2] [], 8) [])
+  /\ direct ce_holder_env 0 v = DOk (VT [VS 1; VS 2] [], 15) [].
+Proof. exact two_hop_needs_holder. Qed.
